@@ -37,10 +37,10 @@ def configs(tier, seed):
             out.append({"name": "query-%s-%s-T%d" % (algo, part, Tq), "mode": "query", "algo": algo, "part": part, "d": 1, "T": Tq, "cost": 3 ** Tq})
     # Mode B: concrete prefix, then symbolic rewards; time labels symbolic in ALL rounds of the second run
     for c in c01.modeb_configs(tier, [a for a in TIME_ALGOS if a != "VROOM"], parts=("B", "K3")):  # VROOM: every draw forks, Mode A only
-        if c["prefix"]["seed"] == 0:
+        if c["prefix"]["seed"] == 0 and (c["prefix"]["P"] <= 130 or q):
             out.append(dict(c, name="time-" + c["name"], mode="time"))
     for c in c01.modeb_configs(tier, list(QUERY_ALGOS), parts=("B", "K3")):
-        if c["prefix"]["seed"] == 0:
+        if c["prefix"]["seed"] == 0 and (c["prefix"]["P"] <= 130 or q):
             out.append(dict(c, name="query-" + c["name"], mode="query"))
     out.append({"name": "twin-time", "mode": "time", "algo": "T_HOO", "part": "B", "d": 1, "T": 2, "twin": True, "expect_fail": "twin"})
     return out
